@@ -239,3 +239,46 @@ Fixpoint trace2_g (t : list minfo) (s : st2) (gs : list (list item2)) : option (
                     end
       end
   end.
+
+(* ---------------------------------------------------------------- persistent cells
+   Every attribute the source assigns on an object that lives across calls, with the cell of Model.v /
+   Model2D.v that stands for it.  A new attribute (a new place where one call can leave something for the
+   next) makes cells_ok false. *)
+Open Scope string_scope.
+Definition expected_cells : list (string * list string) := [
+  (* p_pinv;           p_stale;      p_order;      p_vand *)
+  ("_PolyHelper", ["_pseudo_inverse"; "pinv_stale"; "poly_order"; "vandermonde"]);
+  (* q_pinv;           q_mc;        q_stale;      q_order;      q_vand *)
+  ("_PolyHelper2D", ["_pseudo_inverse"; "max_cross"; "pinv_stale"; "poly_order"; "vandermonde"]);
+  (* all written once in __init__ from (x, num_knots, spline_degree): denoted by the key s_spline *)
+  ("SplineBasis", ["_num_bases"; "_x_len"; "basis"; "knots"; "num_knots"; "spline_degree"; "x"]);
+  (* b_key = num_knots/spline_degree; b_r = basis_r/knots_r/_G_r; b_c = basis_c/knots_c/_G_c; b_full = _basis;
+     _num_bases derived from b_r, b_c; x, z fixed *)
+  ("SplineBasis2D", ["_G_c"; "_G_r"; "_basis"; "_num_bases"; "basis_c"; "basis_r"; "knots_c"; "knots_r"; "num_knots";
+                     "spline_degree"; "x"; "z"]);
+  (* s_size = __size/_size/_shape; s_solver = _banded_solver/banded_solver; s_penta; s_poly; s_spline; s_validated;
+     s_x = x; s_lazy = x_domain; constructor constants: _check_finite, _dtype, _sort_order, _inverted_order *)
+  ("_Algorithm", ["__size"; "_banded_solver"; "_check_finite"; "_dtype"; "_inverted_order"; "_pentapy_solver"; "_polynomial";
+                  "_shape"; "_size"; "_sort_order"; "_spline_basis"; "_validated_x"; "banded_solver"; "x"; "x_domain"]);
+  (* t_x/t_z = x, z, __shape/_shape/_size, x_domain, z_domain; t_vx, t_vz; t_poly; t_spline; t_solver *)
+  ("_Algorithm2D", ["__shape"; "_banded_solver"; "_check_finite"; "_dtype"; "_inverted_order"; "_polynomial"; "_shape"; "_size";
+                    "_sort_order"; "_spline_basis"; "_validated_x"; "_validated_z"; "banded_solver"; "x"; "x_domain"; "z";
+                    "z_domain"]);
+  ("memoised functions", [])
+].
+
+Fixpoint strl_eqb (a b : list string) : bool :=
+  match a, b with
+  | [], [] => true
+  | x :: a', y :: b' => String.eqb x y && strl_eqb a' b'
+  | _, _ => false
+  end.
+
+Fixpoint cells_eqb (a b : list (string * list string)) : bool :=
+  match a, b with
+  | [], [] => true
+  | (c1, l1) :: a', (c2, l2) :: b' => String.eqb c1 c2 && strl_eqb l1 l2 && cells_eqb a' b'
+  | _, _ => false
+  end.
+
+Definition cells_ok (g : list (string * list string)) : bool := cells_eqb g expected_cells.
